@@ -38,6 +38,19 @@ def _np_str(n):
     return np.array(['q%d' % i for i in range(n)])
 
 
+def _np_unsorted(n):
+    return np.array([15, 13, 19, 11, 17, 12, 18, 14][:n])  # a NumPy span is not assumed to be sorted
+
+
+def _np_str_unsorted(n):
+    return np.array(['north', 'east', 'west', 'south', 'mid', 'alt', 'top', 'low'][:n])
+
+
+def _list_names(n):
+    # period labels that are also variable names, alias names and attribute names of the objects under test
+    return ['Y', 'K', 'GDP', 'X', 'out', 'cap', 'status', 't'][:n]
+
+
 def _pd_int(n):
     return pd.Index(list(range(7, 7 + n)))
 
@@ -71,6 +84,9 @@ SPAN_TYPES = {
     'tuple_int': _tuple_int,
     'np_int': _np_int,
     'np_str': _np_str,
+    'np_unsorted': _np_unsorted,
+    'np_str_unsorted': _np_str_unsorted,
+    'list_names': _list_names,
     'pd_int': _pd_int,
     'pd_str': _pd_str,
     'pd_unsorted': _pd_unsorted,
@@ -79,7 +95,7 @@ SPAN_TYPES = {
     'pd_day': _pd_day,
 }
 
-MAX_LEN = {'list_mixed': 8, 'pd_unsorted': 8, 'list_falsy': 8}
+MAX_LEN = {'list_mixed': 8, 'pd_unsorted': 8, 'list_falsy': 8, 'np_unsorted': 8, 'np_str_unsorted': 8, 'list_names': 8}
 
 
 def make(kind, n):
@@ -91,7 +107,7 @@ def make(kind, n):
 def absent_label(kind):
     """A label of the right flavour that is in no span of this kind."""
     return {
-        'range': 1999, 'range_zero': 99, 'list_falsy': 'absent', 'list_str': 'zz', 'list_mixed': 'absent', 'tuple_int': 9, 'np_int': 9, 'np_str': 'zz',
+        'range': 1999, 'range_zero': 99, 'list_falsy': 'absent', 'list_str': 'zz', 'list_mixed': 'absent', 'tuple_int': 9, 'np_int': 9, 'np_str': 'zz', 'np_unsorted': 16, 'np_str_unsorted': 'mn', 'list_names': 'absent',
         'pd_int': 6, 'pd_str': 'zz', 'pd_unsorted': 6,
         'pd_year': pd.Period('1990', freq='Y'), 'pd_quarter': pd.Period('1990Q1', freq='Q'),
         'pd_day': pd.Timestamp('1990-01-01'),
